@@ -22,8 +22,8 @@ func tierN(tier string, q, t int) int {
 // RunC10: at most one grog build runs in a workspace; stale locks are recovered.
 func RunC10(tier string) int {
 	run := report.New("C10", tier, "fault_enumeration",
-		"2 and 3 real OS processes run the real WorkspaceLocker (overlay main 'lockprobe'); every locker step (before each os.* call: try/create, write PID, read, liveness probe, stale remove, wait, release) is a hook point that announces itself on a unix socket and blocks until the controller releases it, so exactly one process moves at a time and the interleaving is the controller's seeded choice (2/3 continue, 1/3 preempt); optional pre-existing lock files (dead PID, garbage, empty, negative) and a SIGKILL of one process at a random step; "+
-			"verdicts: two processes inside the critical section at one point of the schedule; a live contender that does not acquire within 14 of its own tries although it keeps being scheduled; a contender failing; the lock file left behind after everyone finished; non-trivial = schedule with >=1 preemption between the steps of a locker call; distinct = schedule trace")
+		"2 and 3 real OS processes run the real WorkspaceLocker (overlay main 'lockprobe'); every locker step (before each os.* call: try/create, write PID, read, liveness probe, stale remove, wait, release) is a hook point that announces itself on a unix socket and blocks until the controller releases it, so exactly one process moves at a time and the interleaving is the controller's seeded choice (2/3 continue, 1/3 preempt); optional pre-existing lock files (dead PID, garbage, empty, negative) a SIGKILL of one process at a random step, or a SIGTERM to a contender that is waiting while another one holds the lock; "+
+			"verdicts: two processes inside the critical section at one point of the schedule; the lock file not naming the process that is inside the critical section; a live contender that does not acquire within 14 of its own tries although it keeps being scheduled; a contender failing; the lock file left behind after everyone finished; non-trivial = schedule with >=1 preemption between the steps of a locker call; distinct = schedule trace")
 	probe, err := grog.Tool("lockprobe")
 	if err != nil {
 		run.Infra(err.Error())
@@ -51,12 +51,20 @@ func RunC10(tier string) int {
 		if r.Chance(1, 2) {
 			kp = 6
 		}
-		v := RunLockSchedule(r, dir, probe, np, pe, kp)
+		cp := 0
+		if r.Chance(1, 3) {
+			cp, kp = 25, 0
+			if r.Chance(1, 2) {
+				np = 3
+			}
+		}
+		v := RunLockSchedule(r, dir, probe, np, pe, kp, cp)
 		run.Eval(1)
 		run.Count("schedules", 1)
 		run.Count("steps_released", v.Steps)
 		run.Count("critical_section_entries", v.Entered)
 		run.Count("processes_killed", v.Kills)
+		run.Count("waiting_contenders_sent_SIGTERM", v.Cancels)
 		run.Count("owner_scheduled_after_unfair_wait", v.FairnessForced)
 		run.Count("pre_existing:"+pe, 1)
 		if v.Inconclusive != "" {
